@@ -54,6 +54,10 @@ type stats struct {
 func (s *stats) add(k string, n int64) { s.m[k] += n }
 
 func q(s string) string {
+	if len(s) > 2048 {
+		// very long inputs of the thorough tier: a stable short form (prefix, length, hash)
+		return strings.ReplaceAll(strconv.QuoteToASCII(s[:96]), " ", `\x20`) + fmt.Sprintf("...(len=%d,fnv=%016x)", len(s), drv.HashStr(s))
+	}
 	return strings.ReplaceAll(strconv.QuoteToASCII(s), " ", `\x20`)
 }
 
@@ -228,7 +232,7 @@ type mon struct{}
 func (mon) Name() string { return "urlpath" }
 
 func (mon) Level(string) (string, string) {
-	return "exploration", "exhaustive: every string up to the stated length over {'/','.','a','\\'} x 12 spellings of the base (lexical model) and x 5 absolute + 7 relative (after chdir) spellings of a base inside a temporary tree with secrets outside (kernel-judged: inode and content reached by stat/open of the result); plus seeded random longer paths (segments '..', '...', '. .', '%2e%2e', backslash forms, SECRET, arbitrary NUL-free bytes) and random bases. distinct_nontrivial = distinct URL paths whose evaluation discards at least one '..' at the root of the URL path, i.e. that try to climb out of the base (lexical shards), and distinct (base, path) pairs of that kind (canary shards). History shards: sequences of calls in one process, each call judged by the same oracles - for bases with '..' inside and every textual cut base = A + rest at a '/', the two different questions (base, p) and (A, rest+p) with the same concatenation, back to back (each twice), in both orders (separate processes) and in batches of 40 / 250 such groups (first calls of all groups, then the counterpart calls), lexically and inside the canary tree; plus random segment strings all of whose cuts are asked in random order; distinct_nontrivial there = distinct colliding pairs. Retained results: in every shard the results of the last 64 calls are kept exactly as returned next to a copy taken at return; after every call the 4 most recent, every 16 calls and at the end all kept strings must still equal their copy (a changed one is judged again for containment); plus concurrent scenarios (4 / 16 goroutines with bases of their own calling at once, each checking its own 32 kept results after each of its calls)"
+	return "exploration", "exhaustive: every string up to the stated length over {'/','.','a','\\'} x 12 spellings of the base (lexical model) and x 5 absolute + 7 relative (after chdir) spellings of a base inside a temporary tree with secrets outside (kernel-judged: inode and content reached by stat/open of the result); plus seeded random longer paths (segments '..', '...', '. .', '%2e%2e', backslash forms, SECRET, arbitrary NUL-free bytes) and random bases. distinct_nontrivial = distinct URL paths whose evaluation discards at least one '..' at the root of the URL path, i.e. that try to climb out of the base (lexical shards), and distinct (base, path) pairs of that kind (canary shards). History shards: sequences of calls in one process, each call judged by the same oracles - for bases with '..' inside and every textual cut base = A + rest at a '/', the two different questions (base, p) and (A, rest+p) with the same concatenation, back to back (each twice), in both orders (separate processes) and in batches of 40 / 250 such groups (first calls of all groups, then the counterpart calls), lexically and inside the canary tree; plus random segment strings all of whose cuts are asked in random order; distinct_nontrivial there = distinct colliding pairs. Retained results: in every shard the results of the last 64 calls are kept exactly as returned next to a copy taken at return; after every call the 4 most recent, every 16 calls and at the end all kept strings must still equal their copy (a changed one is judged again for containment); plus concurrent scenarios (4 / 16 goroutines with bases of their own calling at once, each checking its own 32 kept results after each of its calls). The thorough tier adds, with the same oracles: the first alphabet exhaustively to length 11 (12 bases) and 12 (4 bases) lexically and to length 10 in the canary tree; a second alphabet of 12 symbols ('/', '.', 'a', '\\', '%', '%2e', ' ', ':', '~', 0x01, a two-byte rune, a lone 0xff) to length 6 (12 bases, canary to 5) and 7 (4 bases); a third alphabet whose symbols are whole segments ('/', '..', '.', 'a', '//', '/../', '\\', 'SECRET') to length 7 (canary 6); 94 further spellings of the base (relative, '..' inside, trailing slashes, blanks and dots, symlink-like names, backslashes, Unicode and non-UTF-8 bytes, 3-5 KiB long) under the first alphabet to length 9 (long ones 7), the other alphabets shorter, and under random paths; 23 further spellings of the canary bases to length 8; long paths (thousands of segments, '..' runs up to 6000 deep, single segments of 4-16 KiB, random NUL-free byte strings up to 8 KiB) lexically and in the canary tree; histories with paths to length 6, batches of 1000 groups, seeded shuffles of 300 groups, the further bases with all their cuts, and 4 M random cut families; concurrent scenarios with 2..64 goroutines at GOMAXPROCS 2, 4 and 16, and with 4 / 16 goroutines in a -race build made by the shard itself (a race report with a glb frame or a runtime crash is a violation)"
 }
 
 func (mon) Assumptions(string) []string {
@@ -246,6 +250,10 @@ func (mon) Assumptions(string) []string {
 func (mon) Finish(prop, tier string, m *drv.Merged) []string {
 	var out []string
 	need := []string{"fs_selftest_ok", "fs_hit_inside_below_base", "fs_read_inside", "fs_dotfree_entry_checked", "climb_attempts", "dotfree_paths", "fs_rel_cases", "fs_abs_cases", "exact_model_agreement", "hist_calls", "hist_colliding_pairs", "hist_fs_calls", "retained_checks", "conc_calls", "conc_retained_checks"}
+	if tier == "thorough" {
+		need = append(need, "alphabet2_cases", "alphabet3_cases", "extra_bases_cases", "extra_canary_bases_cases", "long_path_cases",
+			"hist_shuffled_histories", "hist_wide_pairs", "race_binary_built", "race_conc_calls")
+	}
 	for _, k := range need {
 		if m.Sum[k] == 0 {
 			out = append(out, "observed no "+k)
@@ -263,6 +271,10 @@ type shardArgs struct {
 	Part   int    `json:"part"`
 	Parts  int    `json:"parts"`
 	Count  int    `json:"count,omitempty"`
+	Bases  string `json:"bases,omitempty"`   // thorough: "xshort" | "xlong" | "xall" = the additional spellings of the base
+	Alpha  int    `json:"alpha,omitempty"`   // thorough: 2 = the second, wider alphabet
+	Wide   bool   `json:"wide,omitempty"`    // thorough history shards: the additional bases, all their cuts
+	MinLen int    `json:"min_len,omitempty"` // thorough exhaustive shards: shortest length enumerated
 }
 
 func (mon) Plan(prop, tier string, seed int64) []drv.Shard {
@@ -278,7 +290,11 @@ func (mon) Plan(prop, tier string, seed int64) []drv.Shard {
 	var out []drv.Shard
 	add := func(name string, solo bool, a shardArgs) {
 		b, _ := json.Marshal(a)
-		out = append(out, drv.Shard{Name: name, Args: b, Solo: solo, Secs: 600})
+		secs := 600
+		if tier == "thorough" {
+			secs = 2400 // generous: the machine may be heavily loaded
+		}
+		out = append(out, drv.Shard{Name: name, Args: b, Solo: solo, Secs: secs})
 	}
 	for p := 0; p < c.lexParts; p++ {
 		add(fmt.Sprintf("lex-exh-%d", p), false, shardArgs{Kind: "lex-exh", MaxLen: c.lexLen, Part: p, Parts: c.lexParts})
@@ -321,7 +337,80 @@ func (mon) Plan(prop, tier string, seed int64) []drv.Shard {
 	for _, g := range []int{4, 16} {
 		add(fmt.Sprintf("retain-conc-g%d", g), false, shardArgs{Kind: "retain-conc", Parts: g, Count: cc})
 	}
+	if tier == "thorough" {
+		out = append(out, planDeep(add)...)
+	}
 	return out
+}
+
+// planDeep: the additional shards of the thorough tier (diversity: longer exhaustive sweeps, a
+// second alphabet, many more bases, long paths, more histories, more concurrency, -race).
+func planDeep(add func(name string, solo bool, a shardArgs)) []drv.Shard {
+	var extra []drv.Shard
+	parts := func(kind string, n int, solo bool, a shardArgs) {
+		for p := 0; p < n; p++ {
+			a.Part, a.Parts = p, n
+			add(idxName(kind, p), solo, a)
+		}
+	}
+	// first alphabet, one character longer than the base plan (lexical 11, canary 10)
+	parts("lex-exh11", 32, false, shardArgs{Kind: "lex-exh", MinLen: 11, MaxLen: 11})
+	parts("fs-abs-exh10", 8, false, shardArgs{Kind: "fs-exh", MinLen: 10, MaxLen: 10})
+	parts("fs-rel-exh10", 4, true, shardArgs{Kind: "fs-exh", Rel: true, MinLen: 10, MaxLen: 10})
+	// second alphabet (12 symbols), shorter
+	parts("lex-exh-alpha2", 16, false, shardArgs{Kind: "lex-exh", Alpha: 2, MaxLen: 6})
+	parts("fs-abs-exh-alpha2", 4, false, shardArgs{Kind: "fs-exh", Alpha: 2, MaxLen: 5})
+	parts("fs-rel-exh-alpha2", 1, true, shardArgs{Kind: "fs-exh", Alpha: 2, Rel: true, MaxLen: 5})
+	// third alphabet: whole segments as symbols (deep traversal shapes)
+	parts("lex-exh-alpha3", 8, false, shardArgs{Kind: "lex-exh", Alpha: 3, MaxLen: 7})
+	parts("lex-exh-alpha3-xbases", 8, false, shardArgs{Kind: "lex-exh", Alpha: 3, Bases: "xshort", MaxLen: 6})
+	parts("fs-abs-exh-alpha3", 4, false, shardArgs{Kind: "fs-exh", Alpha: 3, MaxLen: 6})
+	parts("fs-rel-exh-alpha3", 1, true, shardArgs{Kind: "fs-exh", Alpha: 3, Rel: true, MaxLen: 6})
+	// second alphabet one symbol longer and first alphabet two characters longer, on four bases
+	parts("lex-exh-alpha2-len7", 16, false, shardArgs{Kind: "lex-exh", Alpha: 2, Bases: "four", MinLen: 7, MaxLen: 7})
+	parts("lex-exh12", 16, false, shardArgs{Kind: "lex-exh", Bases: "four", MinLen: 12, MaxLen: 12})
+	// further spellings of the canary bases
+	parts("fs-abs-exh-xfs", 4, false, shardArgs{Kind: "fs-exh", Bases: "xfs", MaxLen: 8})
+	parts("fs-rel-exh-xfs", 1, true, shardArgs{Kind: "fs-exh", Bases: "xfs", Rel: true, MaxLen: 8})
+	// many more bases
+	parts("lex-exh-xbases", 16, false, shardArgs{Kind: "lex-exh", Bases: "xshort", MaxLen: 9})
+	parts("lex-exh-xlong", 4, false, shardArgs{Kind: "lex-exh", Bases: "xlong", MaxLen: 7})
+	parts("lex-exh-alpha2-xbases", 8, false, shardArgs{Kind: "lex-exh", Alpha: 2, Bases: "xshort", MaxLen: 4})
+	parts("lex-rand-xbases", 16, false, shardArgs{Kind: "lex-rand", Bases: "xall", Count: 500000})
+	// very long paths, byte strings of several KiB
+	parts("lex-long", 16, false, shardArgs{Kind: "lex-long", Count: 40000})
+	parts("fs-abs-long", 4, false, shardArgs{Kind: "fs-long", Count: 20000})
+	parts("fs-rel-long", 1, true, shardArgs{Kind: "fs-long", Rel: true, Count: 20000})
+	// more histories: longer paths, larger distances, shuffled orders, the additional bases
+	for _, rev := range []bool{false, true} {
+		rn := map[bool]string{false: "fwd", true: "rev"}[rev]
+		for _, batch := range []int{1, 40, 250, 1000, -300} {
+			n := fmt.Sprintf("%s-d%d", rn, batch)
+			if batch < 0 {
+				n = fmt.Sprintf("%s-shuffle%d", rn, -batch)
+			}
+			add("hist6-lex-"+n, false, shardArgs{Kind: "hist-lex", Rev: rev, Batch: batch, MaxLen: 6})
+			add("hist-wide-"+n, false, shardArgs{Kind: "hist-lex", Wide: true, Rev: rev, Batch: batch, MaxLen: 4})
+			if batch == 1000 || batch < 0 {
+				add("hist6-fs-abs-"+n, false, shardArgs{Kind: "hist-fs", Rev: rev, Batch: batch, MaxLen: 6})
+				add("hist6-fs-rel-"+n, true, shardArgs{Kind: "hist-fs", Rel: true, Rev: rev, Batch: batch, MaxLen: 5})
+			}
+		}
+	}
+	parts("hist-split-deep", 16, false, shardArgs{Kind: "hist-split", Count: 250000, Wide: true})
+	// more concurrency: 2..64 goroutines at GOMAXPROCS 2, 4, 16
+	for _, gmp := range []int{2, 4, 16} {
+		for _, g := range []int{2, 8, 64} {
+			b, _ := json.Marshal(shardArgs{Kind: "retain-conc", Parts: g, Count: 400000 / g * 4})
+			extra = append(extra, drv.Shard{Name: fmt.Sprintf("retain-conc-g%d-p%d", g, gmp), Args: b, Secs: 2400, Env: []string{fmt.Sprintf("GOMAXPROCS=%d", gmp)}})
+		}
+	}
+	// the same under the race detector (binary built by the shard itself)
+	for _, g := range []int{4, 16} {
+		b, _ := json.Marshal(shardArgs{Kind: "conc-race", Parts: g, Count: 100000})
+		extra = append(extra, drv.Shard{Name: fmt.Sprintf("conc-race-g%d", g), Args: b, Secs: 2400})
+	}
+	return extra
 }
 
 // the 12 spellings of the base of DESIGN.md
@@ -354,6 +443,21 @@ func forEachPath(maxLen, part, parts int, f func(idx int, p []byte) bool) {
 				return
 			}
 		}
+	}
+}
+
+// enumPaths enumerates the paths of an exhaustive shard. The default (first alphabet from length
+// 0) is forEachPath; the thorough tier also uses the second alphabet and a minimum length.
+func enumPaths(a shardArgs, f func(idx int, p []byte) bool) {
+	switch {
+	case a.Alpha == 2:
+		forEachSyms(syms2, a.MinLen, a.MaxLen, a.Part, a.Parts, f)
+	case a.Alpha == 3:
+		forEachSyms(syms3, a.MinLen, a.MaxLen, a.Part, a.Parts, f)
+	case a.MinLen > 0:
+		forEachSyms([]string{"/", ".", "a", "\\"}, a.MinLen, a.MaxLen, a.Part, a.Parts, f)
+	default:
+		forEachPath(a.MaxLen, a.Part, a.Parts, f)
 	}
 }
 
@@ -533,14 +637,38 @@ func (mn mon) Run(sh drv.Shard, c *drv.Ctx) {
 	if a.Rel {
 		fsb, fsKey = fsRelBases, "fs_rel_cases"
 	}
+	if a.Bases == "xfs" { // thorough: further spellings of the canary bases
+		fsb = fsAbsBasesX
+		if a.Rel {
+			fsb = fsRelBasesX
+		}
+	}
 	switch a.Kind {
 	case "lex-exh":
-		forEachPath(a.MaxLen, a.Part, a.Parts, func(idx int, p []byte) bool {
+		bases, tag := lexBases, ""
+		switch a.Bases {
+		case "xshort":
+			bases = xBasesShort
+		case "xlong":
+			bases = xBasesLong
+		case "four":
+			bases = []string{"/data", "../up", "a/../b", "./"}
+		}
+		if a.Bases != "" || a.Alpha >= 2 {
+			tag = fmt.Sprintf("%s\x00%d\x00", a.Bases, a.Alpha)
+		}
+		enumPaths(a, func(idx int, p []byte) bool {
 			_, climbs := urlSegments(string(p))
 			if climbs > 0 {
-				c.DistinctStr(string(p))
+				c.DistinctStr(tag + string(p))
 			}
-			for _, b := range lexBases {
+			if a.Alpha >= 2 {
+				st.add(fmt.Sprintf("alphabet%d_cases", a.Alpha), int64(len(bases)))
+			}
+			if a.Bases != "" && a.Bases != "four" {
+				st.add("extra_bases_cases", int64(len(bases)))
+			}
+			for _, b := range bases {
 				cs := Case{Mode: "lex", Base: b, Path: p}
 				sampleEvery(cs, a.Part < 2 && c.NumSamples() < 1 && climbs > 1 && len(p) == a.MaxLen && b == "../up")
 				if !exec(cs) {
@@ -549,11 +677,36 @@ func (mn mon) Run(sh drv.Shard, c *drv.Ctx) {
 			}
 			return true
 		})
-		c.MaxOf("exhaustive_len_lexical", int64(a.MaxLen))
+		switch {
+		case a.Bases == "four" && a.Alpha >= 2:
+			c.MaxOf(fmt.Sprintf("exhaustive_len_alphabet%d_4bases", a.Alpha), int64(a.MaxLen))
+		case a.Bases == "four":
+			c.MaxOf("exhaustive_len_lexical_4bases", int64(a.MaxLen))
+		case a.Alpha >= 2:
+			c.MaxOf(fmt.Sprintf("exhaustive_len_alphabet%d", a.Alpha), int64(a.MaxLen))
+		case a.Bases != "":
+			c.MaxOf("exhaustive_len_extra_bases", int64(a.MaxLen))
+			c.MaxOf("extra_bases", int64(len(bases)))
+		default:
+			c.MaxOf("exhaustive_len_lexical", int64(a.MaxLen))
+		}
 	case "lex-rand":
 		r := rand.New(rand.NewSource(sh.Seed*1000003 + int64(a.Part)))
+		var xall []string
+		if a.Bases != "" {
+			r = rand.New(rand.NewSource(sh.Seed*1000003 + 32452843 + int64(a.Part)))
+			xall = xBasesAll()
+		}
 		for i := 0; i < a.Count; i++ {
 			cs := Case{Mode: "lex", Base: randBase(r), Path: randPath(r)}
+			if xall != nil {
+				cs = Case{Mode: "lex", Base: xRandBase(r, xall), Path: xRandPath(r)}
+				st.add("extra_bases_cases", 1)
+				if len(cs.Path) >= 1024 {
+					st.add("long_path_cases", 1)
+					st.add("long_path_bytes", int64(len(cs.Path)))
+				}
+			}
 			_, climbs := urlSegments(string(cs.Path))
 			if climbs > 0 {
 				c.DistinctStr(cs.Base + "\x00" + string(cs.Path))
@@ -565,8 +718,14 @@ func (mn mon) Run(sh drv.Shard, c *drv.Ctx) {
 			}
 		}
 	case "fs-exh":
-		forEachPath(a.MaxLen, a.Part, a.Parts, func(idx int, p []byte) bool {
+		enumPaths(a, func(idx int, p []byte) bool {
 			_, climbs := urlSegments(string(p))
+			if a.Alpha >= 2 {
+				st.add(fmt.Sprintf("alphabet%d_cases", a.Alpha), int64(len(fsb)))
+			}
+			if a.Bases == "xfs" {
+				st.add("extra_canary_bases_cases", int64(len(fsb)))
+			}
 			for _, b := range fsb {
 				cs := Case{Mode: "fs", Base: b.Base, Path: p, Dir: b.Dir, Chdir: b.Chdir}
 				if climbs > 0 {
@@ -579,7 +738,13 @@ func (mn mon) Run(sh drv.Shard, c *drv.Ctx) {
 			}
 			return true
 		})
-		c.MaxOf("exhaustive_len_canary", int64(a.MaxLen))
+		if a.Bases == "xfs" {
+			c.MaxOf("exhaustive_len_extra_canary_bases", int64(a.MaxLen))
+		} else if a.Alpha >= 2 {
+			c.MaxOf(fmt.Sprintf("exhaustive_len_canary_alphabet%d", a.Alpha), int64(a.MaxLen))
+		} else {
+			c.MaxOf("exhaustive_len_canary", int64(a.MaxLen))
+		}
 	case "fs-rand":
 		r := rand.New(rand.NewSource(sh.Seed*1000003 + 7919 + int64(a.Part)))
 		if a.Rel {
@@ -599,15 +764,61 @@ func (mn mon) Run(sh drv.Shard, c *drv.Ctx) {
 				break
 			}
 		}
+	case "lex-long", "fs-long":
+		off := int64(49979687)
+		if a.Kind == "fs-long" {
+			off = 67867967
+			if a.Rel {
+				off = 86028121
+			}
+		}
+		r := rand.New(rand.NewSource(sh.Seed*1000003 + off + int64(a.Part)))
+		xall := append(xBasesAll(), lexBases...)
+		for i := 0; i < a.Count; i++ {
+			var cs Case
+			if a.Kind == "lex-long" {
+				cs = Case{Mode: "lex", Base: xall[r.Intn(len(xall))], Path: longPath(r)}
+			} else {
+				b := fsb[r.Intn(len(fsb))]
+				cs = Case{Mode: "fs", Base: b.Base, Path: longPath(r), Dir: b.Dir, Chdir: b.Chdir}
+				st.add(fsKey, 1)
+			}
+			us, climbs := urlSegments(string(cs.Path))
+			if climbs > 0 {
+				c.DistinctStr("long\x00" + cs.Base + "\x00" + string(cs.Path))
+			}
+			st.add("long_path_cases", 1)
+			st.add("long_path_bytes", int64(len(cs.Path)))
+			c.MaxOf("long_path_max_bytes", int64(len(cs.Path)))
+			c.MaxOf("long_path_max_discarded_dotdots", int64(climbs))
+			c.MaxOf("long_path_max_result_segments", int64(len(us)))
+			if i == 0 && a.Part == 0 {
+				c.Sample(map[string]any{"mode": cs.Mode, "base": q(cs.Base), "path_len": len(cs.Path), "path_head": strconv.QuoteToASCII(string(cs.Path[:min(60, len(cs.Path))])), "discarded_dotdots": climbs})
+			}
+			if !exec(asHistory(cs)) {
+				break
+			}
+		}
+	case "conc-race":
+		runRaceShard(sh, a, c)
 	case "hist-lex", "hist-fs":
-		groups, pairs := histGroups(a.Kind == "hist-fs", a.Rel, a.MaxLen)
+		groups, pairs := histGroups(a.Kind == "hist-fs", a.Rel, a.MaxLen, a.Wide)
 		for _, g := range groups {
 			for _, oa := range g.onA {
 				c.DistinctStr("hist\x00" + g.onB.Base + "\x00" + oa.Base + "\x00" + string(g.onB.Path))
 			}
 		}
 		st.add("hist_colliding_pairs", int64(pairs))
-		for i, cs := range histCases(groups, a.Rev, a.Batch) {
+		if a.Batch < 0 {
+			st.add("hist_shuffled_histories", 1)
+		}
+		if a.Wide {
+			st.add("hist_wide_pairs", int64(pairs))
+		}
+		if a.Batch >= 1000 {
+			c.MaxOf("hist_max_batch", int64(a.Batch))
+		}
+		for i, cs := range histCases(groups, a.Rev, a.Batch, sh.Seed) {
 			if i == 0 {
 				sq := cs.Seq[:min(4, len(cs.Seq))]
 				var ss []string
@@ -646,7 +857,7 @@ func (mn mon) Run(sh drv.Shard, c *drv.Ctx) {
 	case "hist-split":
 		r := rand.New(rand.NewSource(sh.Seed*1000003 + 15485863 + int64(a.Part)))
 		for i := 0; i < a.Count; i++ {
-			cs := randSplitCase(r)
+			cs := randSplitCase(r, a.Wide)
 			c.DistinctStr("split\x00" + cs.Seq[0].concat())
 			n := len(cs.Seq)
 			if !exec(cs) {
